@@ -99,6 +99,9 @@ func points() []point {
 			return rawElement(g2, new(big.Int).Add(new(big.Int).Lsh(big.NewInt(1), 128), big.NewInt(5)))
 		}},
 		{"identity (0:7:0)", func() *secp256k1.Element { return rawElement(ref.Infinity(), big.NewInt(7)) }},
+		// the Go zero value of the exported type: not a group element, but a value any caller can hold; whatever
+		// Multiply does with it must still not depend on the scalar
+		{"zero-value Element (0:0:0)", func() *secp256k1.Element { return secp256k1.VerifBlankElement() }},
 	}
 }
 
@@ -217,7 +220,7 @@ func C19(r *ev.Report) {
 	ks := c19Scalars(ev.Thorough())
 	pts := points()
 
-	r.Rule("instrumented build (verifrt.Enter at every function entry of the three packages): for each of 3 points (G, a re-scaled 2G, a non-canonical identity) the sequence of internal/field function entries during Multiply(k) is compared (incremental hash + length; full re-recording on mismatch) with the sequence for k = 0, for every k of the alphabet: all scalars within 1 (thorough: 2) bit-deviations of 0 and of n-1, 0..64, the boundary alphabet K (2^i+-1, n-1-2^i, around n/2 and 2^255, limb products); k = 1 is the documented shortcut and excluded; non-trivial = all (distinct scalars)")
+	r.Rule("instrumented build (verifrt.Enter at every function entry of the three packages): for each of 4 fixed points (G, a re-scaled 2G, a non-canonical identity, and the zero value of the Element type) the sequence of internal/field function entries during Multiply(k) is compared (incremental hash + length; full re-recording on mismatch) with the sequence for k = 0, for every k of the alphabet: all scalars within 1 (thorough: 2) bit-deviations of 0 and of n-1, 0..64, the boundary alphabet K (2^i+-1, n-1-2^i, around n/2 and 2^255, limb products); k = 1 is the documented shortcut and excluded; non-trivial = all (distinct scalars)")
 	r.Bound("scalars", len(ks))
 	r.Bound("points", len(pts))
 	r.Bound("instrumented_functions", len(verifrt.Names))
